@@ -91,6 +91,9 @@ type Host struct {
 	ListenFault func(network string, laddr netip.AddrPort) error
 	// AddrPortConns makes sockets implement ice.AddrPortReaderWriter.
 	AddrPortConns bool
+	// MappedV4Sources makes the host's sockets report IPv4 sources in their IPv4-in-IPv6 form (a 16-byte IP
+	// in *net.UDPAddr, ::ffff:a.b.c.d as netip.Addr), as dual-stack sockets and some wrappers do.
+	MappedV4Sources bool
 	// ResolveFault fails ResolveUDPAddr when set.
 	ResolveFault error
 	// Alias is an external 1:1 address: traffic addressed to it reaches sockets bound to the
@@ -379,12 +382,19 @@ func (s *Sock) srcFor(dst netip.AddrPort) netip.AddrPort {
 
 // --- net.PacketConn / transport.UDPConn
 
+func (s *Sock) srcForm(ap netip.AddrPort) netip.AddrPort {
+	if s.h.MappedV4Sources && ap.Addr().Is4() {
+		return netip.AddrPortFrom(netip.AddrFrom16(ap.Addr().As16()), ap.Port())
+	}
+	return ap
+}
+
 func (s *Sock) ReadFrom(p []byte) (int, net.Addr, error) {
 	n, ap, err := s.readFromAP(p)
 	if err != nil {
 		return 0, nil, err
 	}
-	return n, net.UDPAddrFromAddrPort(ap), nil
+	return n, net.UDPAddrFromAddrPort(s.srcForm(ap)), nil
 }
 
 func (s *Sock) ReadFromUDP(b []byte) (int, *net.UDPAddr, error) {
@@ -392,7 +402,7 @@ func (s *Sock) ReadFromUDP(b []byte) (int, *net.UDPAddr, error) {
 	if err != nil {
 		return 0, nil, err
 	}
-	return n, net.UDPAddrFromAddrPort(ap), nil
+	return n, net.UDPAddrFromAddrPort(s.srcForm(ap)), nil
 }
 
 func (s *Sock) ReadMsgUDP(b, _ []byte) (n, oobn, flags int, addr *net.UDPAddr, err error) {
